@@ -4,15 +4,15 @@ P=$(readlink -f "$1"); shift
 cd "$(dirname "$(readlink -f "$0")")/.."
 WT=$(mktemp -d /tmp/dm-XXXXXX)
 git -C /repo worktree add -q --detach "$WT" HEAD || exit 2
-trap 'git -C /repo worktree remove --force "$WT"; rm -rf "$WT" /var/tmp/verif-dev-m' EXIT
+T=$(mktemp -d /var/tmp/verif-dev-m-XXXXXX); S=/dev/shm/$(basename $T)
+trap 'git -C /repo worktree remove --force "$WT"; chattr -R -i "$S" 2>/dev/null; rm -rf "$WT" "$T" "$S"' EXIT
 git -C "$WT" apply "$P" || { echo "patch does not apply"; exit 2; }
 . ./goenv.sh
-T=/var/tmp/verif-dev-m; mkdir -p $T/bin $T/replays
+mkdir -p $T/bin $T/replays
 sed "s|=> /repo|=> $WT|; s|=> ./_third_party|=> $PWD/harness/_third_party|" harness/go.mod > $T/go.mod; cp harness/go.sum $T/go.sum
 RACE=""; [ "${2:-}" = race ] && RACE=-race
 (cd harness && $GO test -c $RACE -modfile=$T/go.mod -tags verif -o $T/h.test .) || exit 2
 for b in ${DEV_BINS:-}; do n=${b%.race}; r=""; [ "$n" != "$b" ] && r=-race; (cd $WT && $GO build $r -o $T/bin/$b ./cmd/$n); done
-rm -f $T/out.jsonl; mkdir -p /dev/shm/verif-dev-m
-VERIF_TIER=${VERIF_TIER:-quick} VERIF_OUT=$T/out.jsonl VERIF_TMP=/dev/shm/verif-dev-m VERIF_BIN=$T/bin VERIF_HARNESS_BIN=$T/h.test VERIF_REPLAY_DIR=$T/replays \
+rm -f $T/out.jsonl; mkdir -p $S
+VERIF_TIER=${VERIF_TIER:-quick} VERIF_OUT=$T/out.jsonl VERIF_TMP=$S VERIF_BIN=$T/bin VERIF_HARNESS_BIN=$T/h.test VERIF_REPLAY_DIR=$T/replays \
   $T/h.test -test.run "$1" -test.timeout 0 -test.count 1 -test.v 2>&1 | grep -E "VIOLATION|^---|PASS|FAIL|panic" | cut -c1-300 | head -${DEV_TAIL:-12}
-chattr -R -i /dev/shm/verif-dev-m 2>/dev/null; rm -rf /dev/shm/verif-dev-m
